@@ -736,3 +736,179 @@ Proof.
   - intros [H1 [H2 [n [Hf [Ht Hc]]]]]. split; [lia|]. split; [exact H2|]. rewrite Hf.
     apply andb_true_iff. split; [apply Z.eqb_eq; exact Ht|]. destruct (vn_cpus n); [congruence|reflexivity].
 Qed.
+
+(* ------------------------------------------------------------------ accepted configurations *)
+
+Section Accepted.
+(* the CPU allocator's contract (C08): the returned CPUs are taken from the requested set *)
+Context (alloc : allocator)
+        (alloc_sub : forall from cnt r, alloc from cnt = Some r -> forall x, In x r -> In x from).
+
+Lemma constraints_ok v c cs : check_constraints alloc v c = Ok cs ->
+  cs_reserved cs <> [] /\
+  (forall x, In x (cs_reserved cs) -> In x (cs_allowed cs)) /\
+  (forall x, In x (cs_isolated cs) <-> In x (sv_isolated v) /\ In x (cs_allowed cs)).
+Proof.
+  unfold check_constraints.
+  destruct (match cf_avail c with AvSet l => Some (canon l) | AvAbsent => Some (diff (cpu_ids v) (offlined v)) | _ => None end)
+    as [allowed|]; [|discriminate].
+  set (fin := fun reserved => if is_empty reserved then Rej RejConstraints else Ok (mkCpusets allowed (inter (sv_isolated v) allowed) reserved)).
+  assert (Hfin : forall r, fin r = Ok cs -> r <> [] /\ cs = mkCpusets allowed (inter (sv_isolated v) allowed) r).
+  { intros r. unfold fin. destruct r; simpl; [discriminate|]. intros H. injection H as <-. split; [discriminate|reflexivity]. }
+  destruct (cf_resv c) as [|l|q|]; try discriminate.
+  - destruct (negb (is_empty (diff (canon l) allowed))) eqn:E1; [discriminate|].
+    match goal with |- (if ?b then _ else _) = _ -> _ => destruct b; [discriminate|] end.
+    intros H. apply Hfin in H as [H1 ->]. cbn [cs_reserved cs_allowed cs_isolated]. split; [exact H1|]. split.
+    + intros x Hx. apply negb_false_iff in E1. apply is_empty_spec in E1.
+      destruct (in_dec Z.eq_dec x allowed) as [Hi|Hi]; [exact Hi|].
+      assert (In x (diff (canon l) allowed)) by (apply diff_In; tauto). rewrite E1 in H. contradiction.
+    + intros x. apply inter_In.
+  - destruct (alloc (diff allowed (inter (sv_isolated v) allowed)) (Z.quot (q + 999) 1000)) as [r|] eqn:Ea; [|discriminate].
+    intros H. apply Hfin in H as [H1 ->]. cbn [cs_reserved cs_allowed cs_isolated]. split; [exact H1|]. split.
+    + intros x Hx. rewrite canon_In in Hx. apply (alloc_sub _ _ _ Ea) in Hx. apply diff_In in Hx. tauto.
+    + intros x. apply inter_In.
+Qed.
+
+(* reserved by quantity: never an isolated CPU *)
+Lemma quantity_reserved_not_isolated v av q cs : check_constraints alloc v (mkCfg av (RsMilli q)) = Ok cs ->
+  forall x, In x (cs_reserved cs) -> In x (cs_isolated cs) -> False.
+Proof.
+  unfold check_constraints. cbn [cf_avail cf_resv].
+  destruct (match av with AvSet l => Some (canon l) | AvAbsent => Some (diff (cpu_ids v) (offlined v)) | _ => None end)
+    as [allowed|]; [|discriminate].
+  destruct (alloc (diff allowed (inter (sv_isolated v) allowed)) (Z.quot (q + 999) 1000)) as [r|] eqn:Ea; [|discriminate].
+  destruct (is_empty (canon r)); [discriminate|]. intros H. injection H as <-. cbn [cs_reserved cs_isolated].
+  intros x Hx Hi. rewrite canon_In in Hx. apply (alloc_sub _ _ _ Ea) in Hx. apply diff_In in Hx. tauto.
+Qed.
+
+(* reserved by cpuset: either no isolated CPU at all, or exactly one CPU which is isolated
+   (the case the property excludes) *)
+Lemma cpuset_reserved_cases v av l cs : check_constraints alloc v (mkCfg av (RsSet l)) = Ok cs ->
+  (forall x, In x (cs_reserved cs) -> In x (cs_isolated cs) -> False) \/
+  (exists c, In c (cs_isolated cs) /\ forall x, In x (cs_reserved cs) <-> x = c).
+Proof.
+  unfold check_constraints. cbn [cf_avail cf_resv].
+  destruct (match av with AvSet l => Some (canon l) | AvAbsent => Some (diff (cpu_ids v) (offlined v)) | _ => None end)
+    as [allowed|]; [|discriminate].
+  set (isolated := inter (sv_isolated v) allowed).
+  destruct (negb (is_empty (diff (canon l) allowed))); [discriminate|].
+  destruct (is_empty (inter (canon l) isolated)) eqn:Ei.
+  - cbn [negb andb]. destruct (is_empty (canon l)); [discriminate|]. intros H. injection H as <-. cbn [cs_reserved cs_isolated].
+    left. intros x H1 H2. apply is_empty_spec in Ei. assert (In x (inter (canon l) isolated)) by (apply inter_In; tauto).
+    rewrite Ei in H. exact H.
+  - cbn [negb andb]. destruct (negb (seteq (canon l) (inter (canon l) isolated))) eqn:Es; [discriminate|]. cbn [orb].
+    destruct (1 <? zlen (inter (canon l) isolated)) eqn:El; [discriminate|].
+    destruct (is_empty (canon l)); [discriminate|]. intros H. injection H as <-. cbn [cs_reserved cs_isolated].
+    right. apply negb_false_iff in Es. rewrite seteq_spec in Es. apply Z.ltb_ge in El. unfold zlen in El.
+    destruct (inter (canon l) isolated) as [|c [|c' t]] eqn:E; [discriminate| |simpl length in El; lia].
+    exists c. split.
+    + assert (In c (inter (canon l) isolated)) by (rewrite E; left; reflexivity). apply inter_In in H. tauto.
+    + intros x. rewrite Es. simpl. split; [intros [->|[]]; reflexivity|intros ->; left; reflexivity].
+Qed.
+
+Lemma accepted_tree mf v c cs ps : build_pools mf alloc v c = Ok (cs, ps) ->
+  check_constraints alloc v c = Ok cs /\ topology_ok v = true /\ ps = build_tree mf v cs.
+Proof.
+  unfold build_pools. destruct (check_constraints alloc v c) as [cs'|]; [|discriminate].
+  destruct (topology_ok v); [|discriminate]. intros H. injection H as <- <-. auto.
+Qed.
+
+(* --- the property's clauses for every hierarchical view and every accepted configuration --- *)
+Section Clauses.
+Context (mf : bool) (v : system_view) (c : cfg) (cs : cpusets) (ps : list pool)
+        (Hwf : hier_wfb v = true) (Hacc : build_pools mf alloc v c = Ok (cs, ps)).
+
+Let Hh : hier v := hier_of_wfb v Hwf.
+
+Lemma in_ps p : In p ps <-> origin mf v cs p.
+Proof. destruct (accepted_tree _ _ _ _ _ Hacc) as [_ [_ ->]]. apply tree_shape. Qed.
+
+Theorem final_single_tree :
+  (exists r, In r ps /\ pl_parent r = None /\ forall p, In p ps -> pl_parent p = None -> p = r) /\
+  (forall p k, In p ps -> pl_parent p = Some k -> exists q, In q ps /\ pl_key q = k /\ pl_depth p = pl_depth q + 1) /\
+  (forall p q, In p ps -> In q ps -> pl_key p = pl_key q -> p = q).
+Proof.
+  split; [|split].
+  - destruct (single_root mf v cs Hh) as [r [H1 [H2 H3]]]. exists r. split; [apply in_ps; exact H1|]. split; [exact H2|].
+    intros p Hp. apply H3. apply in_ps. exact Hp.
+  - intros p k Hp Hk. apply in_ps in Hp. destruct (parent_in_tree mf v cs p k Hp Hk) as [q [H1 H2]]. exists q. split; [apply in_ps; exact H1|exact H2].
+  - intros p q Hp Hq. apply in_ps in Hp, Hq. apply (keys_unique mf v cs Hh); assumption.
+Qed.
+
+Theorem final_siblings_disjoint p q : In p ps -> In q ps -> pl_parent p = pl_parent q -> pl_key p <> pl_key q ->
+  forall x, In x (pl_cpus p) -> In x (pl_cpus q) -> False.
+Proof.
+  intros Hp Hq Hpar Hk x H1 H2. apply in_ps in Hp, Hq.
+  destruct (supply_partition mf v cs p Hp) as [Ep _]. destruct (supply_partition mf v cs q Hq) as [Eq _].
+  apply Ep in H1. apply Eq in H2. destruct H1 as [H1 _], H2 as [H2 _].
+  exact (siblings_disjoint mf v cs Hh p q Hp Hq Hpar Hk x H1 H2).
+Qed.
+
+Theorem final_parent_contains_children p q : In p ps -> In q ps -> pl_parent p = Some (pl_key q) ->
+  forall x, In x (pl_cpus p) -> In x (pl_cpus q).
+Proof.
+  intros Hp Hq Hpar x H1. apply in_ps in Hp, Hq.
+  destruct (supply_partition mf v cs p Hp) as [Ep _]. destruct (supply_partition mf v cs q Hq) as [Eq _].
+  apply Ep in H1. apply Eq. destruct H1 as [H1 Ha].
+  split; [|exact Ha]. exact (child_cpus_subset mf v cs Hh p q Hp Hq Hpar x H1).
+Qed.
+
+Theorem final_root_holds_available r : In r ps -> pl_parent r = None ->
+  forall x, In x (cs_allowed cs) -> In x (sv_online v) -> In x (pl_cpus r).
+Proof. intros Hr. apply in_ps in Hr. apply (root_holds_available mf v cs Hh r Hr). Qed.
+
+Theorem final_supply_partition p : In p ps ->
+  (forall x, In x (pl_cpus p) <-> In x (pl_hw p) /\ In x (cs_allowed cs)) /\
+  (forall x, In x (pl_iso p) -> In x (pl_shr p) -> False) /\
+  (forall x, In x (pl_res p) -> In x (pl_shr p) -> False) /\
+  ((forall x, In x (cs_reserved cs) -> In x (cs_isolated cs) -> False) ->
+   forall x, In x (pl_iso p) -> In x (pl_res p) -> False) /\
+  (forall x, In x (pl_iso p) <-> In x (pl_hw p) /\ In x (cs_allowed cs) /\ In x (cs_isolated cs)) /\
+  (forall x, In x (pl_res p) <-> In x (pl_hw p) /\ In x (cs_allowed cs) /\ In x (cs_reserved cs)).
+Proof. intros Hp. apply in_ps in Hp. apply (supply_partition mf v cs p Hp). Qed.
+
+Theorem final_root_has_all_memory r : In r ps -> pl_parent r = None ->
+  forall n, In n (pl_mems r) <-> exists nd, In nd (sv_nodes v) /\ vn_id nd = n /\ node_has_memory nd = true.
+Proof. intros Hr. apply in_ps in Hr. apply (root_has_all_memory mf v cs Hh r Hr). Qed.
+
+Theorem final_child_mems_subset p q : mf = true \/ cpu_nodes_have_memory v ->
+  In p ps -> In q ps -> pl_parent p = Some (pl_key q) -> forall n, In n (pl_mems p) -> In n (pl_mems q).
+Proof. intros Hg Hp Hq. apply in_ps in Hp, Hq. apply (child_mems_subset mf v cs Hh p q Hg Hp Hq). Qed.
+
+Theorem final_special_mem_attach p k s : In p ps -> pl_parent p = Some k -> In s (sv_nodes v) -> is_special s = true ->
+  (In (vn_id s) (pl_mems p) <->
+   exists c nd, In c (closest_cpu_dram v s) /\ find_node v c = Some nd /\ exists x, In x (vn_cpus nd) /\ In x (pl_hw p)).
+Proof. intros Hp. apply in_ps in Hp. apply (special_mem_attach mf v cs Hh p k s Hp). Qed.
+
+End Clauses.
+End Accepted.
+
+(* ------------------------------------------------------------------ F11: the statement is false of the code before the fix *)
+
+Definition f11_view : system_view :=
+  mkView [mkVCpu 0 true false 0 0 0 0 [0] 0 []; mkVCpu 1 true false 0 0 0 1 [1] 1 [];
+          mkVCpu 2 true false 1 0 0 0 [2] 2 []; mkVCpu 3 true false 1 0 0 1 [3] 3 []]
+         [mkVNode 0 0 0 [0] [10;12;21;21] 4096 1024 0 true; mkVNode 1 0 0 [1] [12;10;21;21] 4096 1024 0 true;
+          mkVNode 2 1 0 [2] [21;21;10;12] 4096 1024 0 true; mkVNode 3 1 0 [3] [21;21;12;10] 0 0 0 false]
+         [mkVPkg 0 [0;1] [0;1] [0] [mkVDie 0 [0;1] [0;1]]; mkVPkg 1 [2;3] [2;3] [0] [mkVDie 0 [2;3] [2;3]]]
+         [0;1;2;3] [0;1;2;3] [0;1;2;3] [].
+Definition f11_cfg : cfg := mkCfg AvAbsent (RsSet [0]).
+
+Theorem child_mems_subset_unfixed_refuted :
+  exists v c, hier_wfb v = true /\
+    forall alloc, exists cs ps, build_pools false alloc v c = Ok (cs, ps) /\
+      exists p q n, In p ps /\ In q ps /\ pl_parent p = Some (pl_key q) /\ In n (pl_mems p) /\ ~ In n (pl_mems q).
+Proof.
+  exists f11_view, f11_cfg. split; [vm_compute; reflexivity|].
+  intros alloc. eexists. eexists. split; [vm_compute; reflexivity|].
+  exists (mk_pool false f11_view (mkCpusets [0;1;2;3] [] [0]) (KSocket, -1, 1) (Some (KVirtual, -1, -1)) 1 false [2;3]),
+         (mk_pool false f11_view (mkCpusets [0;1;2;3] [] [0]) (KVirtual, -1, -1) None 0 true [0;1;2;3]), 3.
+  vm_compute. repeat split; try tauto.
+  intros [H|[H|[H|H]]]; try discriminate; exact H.
+Qed.
+
+(* hypotheses are satisfiable: the same machine, repaired code *)
+Example f11_view_fixed_accepted :
+  hier_wfb f11_view = true /\
+  exists cs ps, build_pools true (fun _ _ => None) f11_view f11_cfg = Ok (cs, ps) /\ length ps = 6%nat.
+Proof. split; [vm_compute; reflexivity|]. eexists. eexists. split; vm_compute; reflexivity. Qed.
